@@ -49,4 +49,24 @@ theorem chainLen_samples_le (ks : List (Rat × Pt)) (h : ArcOK ks) (total : Rat)
       have : ((k : ℝ) + 1) ≠ 0 := by positivity
       field_simp
 
+/-- If `len` never under-estimates the distance of two nodes, the knots of every id list are admissible. -/
+theorem lensOK_seg (pt : Int → Pt) (len : Int → Int → Nat)
+    (h : ∀ a b, sqd (pt a) (pt b) ≤ ((len a b : Nat) : Rat) * ((len a b : Nat) : Rat)) :
+    ∀ s : List Int, LensOK (s.map pt) (segLens len s)
+  | [] => trivial
+  | [_] => trivial
+  | a :: b :: rest => by
+    have ih := lensOK_seg pt len h (b :: rest)
+    exact ⟨by positivity, h a b, ih⟩
+
+/-- Summing per-segment bounds. -/
+theorem sum_chain_le {α} (F : α → ℝ) (G : α → Nat) (hFG : ∀ s, F s ≤ (G s : ℝ)) :
+    ∀ l : List α, (l.map F).sum ≤ (((l.map G).sum : Nat) : ℝ)
+  | [] => by simp
+  | s :: l => by
+    have := sum_chain_le F G hFG l
+    have := hFG s
+    simp only [List.map_cons, List.sum_cons, Nat.cast_add]
+    linarith
+
 end Navis.Resample
